@@ -1065,7 +1065,7 @@ iwrc iwal_create(struct iwkv *iwkv, const struct iwkv_opts *opts, IWFS_FSM_OPTS 
   if (!opts) {
     return IW_ERROR_INVALID_ARGS;
   }
-  if ((opts->oflags & IWKV_RDONLY) || !opts->wal.enabled) {
+  if ((iwkv->oflags & IWKV_RDONLY) || !opts->wal.enabled) { // the effective flags: IWKV_TRUNC makes the store writable
     return 0;
   }
   iwrc rc = 0;
